@@ -214,14 +214,14 @@ def _(u):
 def _(u):
     from .envlib import depot_tour_reward_unit
 
-    depot_tour_reward_unit(u, F, "CVRPEnv._get_reward", "CVRPEnv")
+    depot_tour_reward_unit(u, F, "CVRPEnv._get_reward", "CVRPEnv", make_td=state)
 
 
 @unit("cvrp.rowlocal.reward", file=F, func="CVRPEnv._get_reward", props=("C04", "C14"))
 def _(u):
     from .envlib import depot_tour_reward_rowlocal
 
-    depot_tour_reward_rowlocal(u, F, "CVRPEnv._get_reward", "CVRPEnv")
+    depot_tour_reward_rowlocal(u, F, "CVRPEnv._get_reward", "CVRPEnv", make_td=state)
 
 
 @unit("cvrp.reward.padding", file=F, func="CVRPEnv._get_reward", props=("C04", "C03"),
